@@ -220,6 +220,8 @@ def run_case(mod, case, known_sigs=()):
         out["harness"] = f"{type(e).__name__}: {e}\n" + traceback.format_exc(limit=8)
     finally:
         np.random.set_state(state)
+    if isinstance(case, dict) and case.get("drift_positions"):
+        ctx.fault("environment_regime_change_in_workload", len(case["drift_positions"]))
     out.update(
         digest=ctx.digest(),
         nontrivial=bool(ctx.nontrivial),
